@@ -49,6 +49,7 @@ let parse_op toks = match toks with
   | "appvals" :: x :: zs -> OAppendVals (n x, List.map (fun z -> z_of_int (int_of_string z)) zs)
   | ["inshint"; x; p; ka; va] -> OInsHint (n x, parse_pos p, parse_arg ka, parse_arg va)
   | ["sort"; x] -> OSort (n x)
+  | ["instie"; x; p; ka; va; j] -> OInsTie (n x, parse_pos p, parse_arg ka, parse_arg va, n j)
   | ["insw"; x; "f"; ka; va] -> OInsVia (n x, true, parse_arg ka, parse_arg va)
   | ["insw"; x; "b"; ka; va] -> OInsVia (n x, false, parse_arg ka, parse_arg va)
   | _ -> failwith ("bad op: " ^ String.concat " " toks)
@@ -118,7 +119,8 @@ let () =
              (match step st o with
               | Ok (did, st') ->
                   let tok = res_token did o (fun () -> match o with OFind (x, ka) -> model_found st x ka | _ -> None) in
-                  emit (model_line tok st st'); Running st'
+                  let tie = match o with OInsTie (_, _, _, _, j) when did -> Printf.sprintf " tie=%d" (int_of_nat j) | _ -> "" in
+                  emit (model_line tok st st' ^ tie); Running st'
               | Err e -> emit (err_str e); Dead))
       (fun ms ->
          match ms with
